@@ -204,7 +204,7 @@ func c04SCTLeafExtensions(r *Run) {
 			}
 		}
 	}
-	r.Floor("writers of ct.TimestampedEntry.Timestamp", nWriters, 9)
+	r.floorHost("writers of ct.TimestampedEntry.Timestamp", nWriters, 9)
 	for _, fn := range fns {
 		if len(x.roles[fn]) == 0 {
 			continue
@@ -230,8 +230,8 @@ func c04SCTLeafExtensions(r *Run) {
 		nPairs += t7xB2i(np > 0)
 		nHashed += t7xB2i(nh > 0)
 	}
-	r.Floor("functions in which a leaf takes its timestamp from an SCT", nPairs, 12)
-	r.Floor("of which hand the leaf on to be serialised whole (hashed)", nHashed, 9)
+	r.floorHost("functions in which a leaf takes its timestamp from an SCT", nPairs, 12)
+	r.floorHost("of which hand the leaf on to be serialised whole (hashed)", nHashed, 9)
 	if os.Getenv("CTVERIF_T7X_DEBUG") != "" {
 		for _, o := range r.Obls {
 			if o.Rule == "C04.R10" {
@@ -1496,4 +1496,14 @@ func (x *t7x) calleeHint(g *ssa.Function) string {
 		return "; " + FuncName(g) + " does not put them in either"
 	}
 	return "; " + FuncName(g) + " puts " + strings.Join(at, ", ") + " into them, but not the SCT's on every way out"
+}
+
+// floorHost: an instance floor confirmed on the default build configuration.  Under another configuration
+// of the thorough tier (GOOS=windows leaves out the packages that do not build there) at least one instance
+// must still be found; the full floor is demanded on the host configuration only.
+func (r *Run) floorHost(what string, found, floor int) {
+	if r.cfg != "" && floor > 1 {
+		floor = 1
+	}
+	r.Floor(what, found, floor)
 }
